@@ -227,6 +227,17 @@ fn read(rng: &mut Rng, ctx: &mut Ctx) {
         let (line2, or) = match &g { None => (line.clone(), None), Some(g) => match write_slp(g) { Ok(o) => (format!("ok {}", hex(&o)), (o != b).then(|| format!("write(read(x)) differs from x at byte {}", o.iter().zip(&b).position(|(a, b)| a != b).unwrap_or(o.len().min(b.len()))))), Err(e) => (e.clone(), Some(format!("write(read(x)) failed: {}", e))) } };
         let mut c = Case::new(format!("rt {}", hex(&b)), line2); c.tags = vec!["rt".into()];
         if let Some(m) = or { c.fail("C01", m.clone()); c.fail("C17", m); }
+        // the same game written into sinks that accept a few bytes per call (pipes, sockets, encoders), are interrupted, or fail
+        if k % 4 == 2 { if let Some(g) = &g { if let Ok(o) = write_slp(g) {
+            let kk = [1usize, 3, 5, 64, 300, 4096][(k / 4) % 6];
+            let mut sink = crate::suites2::ShortSink::new(kk, None, if k % 8 == 2 { 3 } else { 0 });
+            let got = std::panic::catch_unwind(std::panic::AssertUnwindSafe(|| slippi::write(&mut sink, g).map_err(|e| e.to_string())));
+            match got { Ok(Ok(())) => { if sink.out != o { let m = format!(".slp written into a sink that takes {} bytes per call differs from the one written into a Vec (lengths {} vs {})", kk, sink.out.len(), o.len()); c.fail("C01", m.clone()); c.fail("C17", m); } }
+                Ok(Err(e)) => { let m = format!(".slp writer fails on a sink that takes {} bytes per call: {}", kk, e); c.fail("C01", m.clone()); c.fail("C17", m); }
+                Err(_) => { c.fail("C01", ".slp writer panicked on a short-writing sink"); c.fail("C17", ".slp writer panicked on a short-writing sink"); } }
+            let mut bad = crate::suites2::ShortSink::new(64, Some((k / 4) % 7), 0);
+            if let Ok(Ok(())) = std::panic::catch_unwind(std::panic::AssertUnwindSafe(|| slippi::write(&mut bad, g).map_err(|e| e.to_string()))) { c.fail("C17", "a write error injected into the sink did not surface from the .slp writer"); }
+        } } }
         ctx.push(c);
         // skip-frames read of finished replays
         if r.end.is_some() && k % 2 == 0 {
@@ -358,13 +369,23 @@ fn arrow(rng: &mut Rng, ctx: &mut Ctx) {
             let rows = arrow2::array::Array::len(&sa);
             let d = crate::arrowdump::dump(&sa);
             let mut lv = vec![]; crate::arrowdump::leaves("", arrow2::array::Array::data_type(&sa), &mut lv);
-            let f2 = im::Frame::from_struct_array(sa, ver);
+            // a window of the exported array imported on its own (item offsets that do not start at 0): its row view must equal its columns
+            // and the rows of the whole game at the same positions
+            let mut win_err: Option<String> = None;
+            let f2 = im::Frame::from_struct_array(sa.clone(), ver);
+            if n >= 2 { let from = 1 + (k % (n - 1)); let len = n - from;
+                let fw = im::Frame::from_struct_array(sa.clone().sliced(from, len), ver);
+                for i in 0..len { let t = fw.transpose_one(i, ver);
+                    if let Err(e) = compare_view(&t, &fw, i) { win_err = Some(format!("window [{}..{}) of the exported array, row {}: {}", from, n, i, e)); break; }
+                    if format!("{:?}", t) != format!("{:?}", f2.transpose_one(from + i, ver)) { win_err = Some(format!("window [{}..{}) of the exported array: row {} differs from row {} of the whole game", from, n, i, from + i)); break; } } }
             let g2 = Game { start, end, frames: f2, metadata: md, gecko_codes: gc, hash: None, quirks: q };
             let mut o = vec![]; let w = slippi::write(&mut o, &g2);
+            if let Some(e) = win_err { return Err(format!("WINDOW {}", e)); }
             Ok::<_, String>((d, w.is_ok() && o == b, rows == n, lv))
         });
         let mut c = Case::new(format!("into {}", hex(&b)), String::new());
         match res { Err(_) => { c.impl_out = "panic".into(); if zero_ports { tags.push("zero-ports".into()); c.fail("C14", "KNOWN:zero-ports panic in into_struct_array (no occupied port)"); } else { c.fail("C14", "panic in into/from_struct_array"); } }
+            Ok(Err(e)) if e.starts_with("WINDOW ") => { c.impl_out = "window".into(); c.fail("C13", e[7..].to_string()); c.fail("C14", e[7..].to_string()); }
             Ok(Err(e)) => { c.impl_out = e; c.fail("C14", "well-formed replay rejected"); }
             Ok(Ok((d, same, rows, lv))) => { c.impl_out = format!("ok {}", d);
                 let exp = spec::arrow_leaves(r.v, &slots_of(&r.start_block));
@@ -556,6 +577,12 @@ fn ubj(rng: &mut Rng, ctx: &mut Ctx) {
             let back = if w.is_ok() { let start = o.windows(key.len()).rposition(|w| w == key).unwrap() + key.len(); hex(&o[start..o.len() - 2]) } else { "?".into() };
             format!("ok {} rest={} back={}", json_dump(&m), rest, back) }) }));
         let line = match res { Err(_) => { fails.push(("C06".into(), "panic in the metadata reader".into())); "panic".to_string() } Ok(Err(_)) => { if clean { fails.push(("C16".into(), "well-formed metadata rejected".into())); } "err".to_string() } Ok(Ok(j)) => j };
+        // the same file through a source that returns short reads: keys and strings arrive in pieces
+        { let plan: Vec<usize> = match k % 4 { 0 => vec![1], 1 => vec![2, 3, 7], 2 => vec![4], _ => vec![199, 1] };
+          let a = slippi::read(Cursor::new(&file), None).map(|g| format!("{:?}", g.metadata)).map_err(|e| e.to_string());
+          let c2 = std::panic::catch_unwind(|| slippi::read(crate::suites2::Chunked::new(file.clone(), plan.clone(), None), None).map(|g| format!("{:?}", g.metadata)).map_err(|e| e.to_string()));
+          match c2 { Ok(c2) => if a.is_ok() != c2.is_ok() || (a.is_ok() && a != c2) { fails.push(("C16".into(), format!("metadata read through short reads {:?} differs from the read from memory: {:?} vs {:?}", plan, c2.as_ref().map(|s| &s[..s.len().min(60)]), a.as_ref().map(|s| &s[..s.len().min(60)])))); },
+              Err(_) => fails.push(("C16".into(), "metadata reader panicked over a source with short reads".into())) } }
         let mut arg = body.clone(); arg.push(b'}'); arg.push(b'}');
         let mut c = Case::new(format!("ubj {}", hex(&arg)), line); c.oracle = fails; c.tags = vec![format!("len{}", (body.len() / 50).min(9)), format!("clean{}", clean as u8)];
         ctx.push(c);
@@ -586,6 +613,10 @@ fn peppi_suite(rng: &mut Rng, ctx: &mut Ctx) {
             let mut buf = vec![];
             peppi::io::peppi::write(&mut buf, g, Some(&peppi::io::peppi::ser::Opts { compression: comp })).map_err(|_| "err".to_string())?;
             if &buf[..10] != b"peppi.json" { fails.push(("C18".into(), "file signature `peppi.json` is not at offset 0".into())); }
+            // the same archive written into a sink that accepts a few bytes per call
+            if k % 3 == 1 { let g = slippi::read(Cursor::new(&b), Some(&read_opts(false, hash))).unwrap(); let mut sink = crate::suites2::ShortSink::new([1usize, 7, 100, 511, 513][k % 5], None, if k % 2 == 0 { 4 } else { 0 });
+                let r = peppi::io::peppi::write(&mut sink, g, Some(&peppi::io::peppi::ser::Opts { compression: comp }));
+                if r.is_err() || sink.out != buf { let m = format!(".slpp written into a sink that takes {} bytes per call differs from the one written into a Vec ({:?}, lengths {} vs {})", [1usize, 7, 100, 511, 513][k % 5], r.err().map(|e| e.to_string()), sink.out.len(), buf.len()); fails.push(("C02".into(), m.clone())); fails.push(("C18".into(), m)); } }
             // determinism: write the same game again
             { let g = slippi::read(Cursor::new(&b), Some(&read_opts(false, hash))).unwrap(); let mut buf2 = vec![]; let _ = peppi::io::peppi::write(&mut buf2, g, Some(&peppi::io::peppi::ser::Opts { compression: comp })); if buf2 != buf { fails.push(("C18".into(), "writing the same game twice gives different bytes".into())); } }
             // the same archive through sources that return short reads (pipes, decompressors): same game, whatever the piece sizes
